@@ -262,6 +262,10 @@ def sweep_cases(tier):
     in the thorough tier also square / cube roots with remainder of every u8 / u16 value"""
     out = ["plog2b u8 %x" % v for v in range(256)] + ["plog2b u16 %x" % v for v in range(65536)]
     out += ["plog2b i8 %s" % hx(-v) for v in range(1, 129)] + ["plog2b i16 %s" % hx(-v) for v in range(1, 32769, 7)]
+    # all f32 bit patterns cannot be enumerated in a run: an arithmetic progression through the whole pattern space
+    # (every exponent, both signs, subnormals, infinities, NaNs), finer in the thorough tier
+    stride = 8191 if tier == "thorough" else 1048583
+    out += ["f32log2b %x" % b for b in range(0, 1 << 32, stride)]
     if tier == "thorough":
         for op in ("psqrt_rem", "pcbrt_rem"):
             out += ["%s u8 %x" % (op, v) for v in range(256)] + ["%s u16 %x" % (op, v) for v in range(65536)]
